@@ -29,7 +29,7 @@ What is proved here, about the model `Compute/Model/Samplers.lean` (the same def
 * support: DiscreteUniform in `[lower, upper]`, Uniform in `[a,b]`, Bernoulli in `{0,1}`; PARTIAL correctness (`_partial`: every
   returning call, termination of the rejection loop not proved) for Gamma `> 0` (all shapes, after repair F54), χ² `> 0`,
   Beta in `[0,1]`; the gamma boost `Gamma(α) = U^{1/α}·Gamma(α+1)` with `U` the first non-zero uniform;
-* MVN: a returned draw is `μ + L z` (`mvn_sample_spec`; `Props/C03Mvn.lean` derives the hypotheses and `L Lᵀ = Σ` from `MVN.new`);
+* MVN: a returned draw is `μ + L z` (`mvn_sample_spec_partial`; `Props/C03Mvn.lean` derives the hypotheses and `L Lᵀ = Σ` from `MVN.new`);
 * `sample_n` returns exactly `n` consecutive draws of the stream, `sample_matrix` / MVN `sample_n` shapes;
 * unfolding-level facts that only pin the model's compositions (χ² = Gamma(k/2, ½), Beta ratio, t formula, routing, flip,
   `mvn_sample_eq`): `rfl` / `simp [def]`, not results; `legacy_gamma_sqrt_domain` is about the code deleted by repair F20.
@@ -290,13 +290,13 @@ theorem bernoulli_degenerate (g : Rng) :
 /-! ### 4a. Support of the inverse-CDF samplers -/
 
 /-- Pareto draws are `≥ x_m`: every returning call, every generator state (the redraw loop removes `u = 0`). -/
-theorem pareto_support (alpha xm : ℝ) (ha : 0 < alpha) (hm : 0 < xm) (fuel : Nat) (g g' : Rng) (x : ℝ)
+theorem pareto_support_partial (alpha xm : ℝ) (ha : 0 < alpha) (hm : 0 < xm) (fuel : Nat) (g g' : Rng) (x : ℝ)
     (h : Pareto.sample fuel alpha xm g = some (x, g')) : xm ≤ x := by
   obtain ⟨_, _, _, _, hx, _⟩ := pareto_inverse_cdf alpha xm ha hm fuel g g' x h
   exact hx
 
 /-- Exponential draws are `> 0`: every returning call, every generator state. -/
-theorem exponential_support (lam : ℝ) (hl : 0 < lam) (fuel : Nat) (g g' : Rng) (x : ℝ)
+theorem exponential_support_partial (lam : ℝ) (hl : 0 < lam) (fuel : Nat) (g g' : Rng) (x : ℝ)
     (h : Exponential.sample fuel lam g = some (x, g')) : 0 < x := by
   obtain ⟨_, _, _, _, hx, _⟩ := exponential_inverse_cdf lam hl fuel g g' x h
   exact hx
@@ -315,7 +315,7 @@ theorem uniform_degenerate (a : ℝ) (g : Rng) : (UniformF.sample a a g).1 = a :
 /-- **DiscreteUniform support** (every returning call): the draw is an integer `i` with `lower ≤ i ≤ upper`, cast to the
 scalar type (uses the range theorem of Lemire's bounded draw, `Lemmas/C19Rng.lean`); equal bounds return the bound without
 touching the generator. -/
-theorem discrete_uniform_support (fuel : Nat) (lo hi : Int) (g g' : Rng) (x : ℝ)
+theorem discrete_uniform_support_partial (fuel : Nat) (lo hi : Int) (g g' : Rng) (x : ℝ)
     (h : DiscreteUniform.sample (α := ℝ) fuel lo hi g = some (x, g')) :
     ∃ i : Int, x = (i : ℝ) ∧ lo ≤ i ∧ i ≤ hi ∧ DiscreteUniform.sampleInt fuel lo hi g = some (i, g') := by
   unfold DiscreteUniform.sample at h
@@ -667,7 +667,7 @@ theorem mvn_sample_eq (fuel : Nat) (d : MVN.Dist ℝ) (g : Rng) :
 
 /-- **MVN = μ + L z.** With a well-formed `dim × dim` factor `L` and a mean of length `dim > 0`: if the `dim` normal draws
 return `z`, the sample is the vector with entries `μ_i + Σ_k L[i,k] z_k`, and the state is the one left by the draws. -/
-theorem mvn_sample_spec (fuel : Nat) (d : MVN.Dist ℝ) (g g' : Rng) (z : List ℝ) (dim : Nat) (hdim : 0 < dim)
+theorem mvn_sample_spec_partial (fuel : Nat) (d : MVN.Dist ℝ) (g g' : Rng) (z : List ℝ) (dim : Nat) (hdim : 0 < dim)
     (hmean : d.mean.length = dim) (hr : d.chol.nrows = dim) (hc : d.chol.ncols = dim) (hwf : d.chol.WF)
     (hz : Rng.drawN? (Normal.sample fuel (0 : ℝ) 1) dim g = some (z, g')) :
     ∃ x, MVN.sample fuel d g = some (x, g') ∧ x.length = dim ∧
